@@ -508,19 +508,21 @@ xds_decoder(vbi_decoder *vbi, int _class, int type,
 				sum &= ((1UL << 31) - 1);
 				sum |= 1UL << 30;
 
-				if (n->nuid != 0) {
-					/* vbi_chsw_reset() resets the caption
-					   decoder under cc.mutex and may send
-					   events, see caption_send_event(). */
-					pthread_mutex_unlock(&vbi->cc.mutex);
-					vbi_chsw_reset(vbi, sum);
-					pthread_mutex_lock(&vbi->cc.mutex);
+				if (sum != n->nuid) {
+					if (n->nuid != 0) {
+						/* vbi_chsw_reset() resets the caption
+						   decoder under cc.mutex and may send
+						   events, see caption_send_event(). */
+						pthread_mutex_unlock(&vbi->cc.mutex);
+						vbi_chsw_reset(vbi, sum);
+						pthread_mutex_lock(&vbi->cc.mutex);
+					}
+
+					n->nuid = sum;
+
+					vbi->network.type = VBI_EVENT_NETWORK;
+					caption_send_event(vbi, &vbi->network);
 				}
-
-				n->nuid = sum;
-
-				vbi->network.type = VBI_EVENT_NETWORK;
-				caption_send_event(vbi, &vbi->network);
 
 				vbi->network.type = VBI_EVENT_NETWORK_ID;
 				caption_send_event(vbi, &vbi->network);
